@@ -240,7 +240,10 @@ def _work(item):
         warnings.simplefilter("ignore")
         try:
             H = F.build(spec)
-            res = {"H": rt_undirected, "D": rt_directed, "S": rt_complex}[spec["cls"]](H, spec)
+            fn = {"H": rt_undirected, "D": rt_directed, "S": rt_complex}[spec["cls"]]
+            res = fn(H, spec)
+            F.detour(H)
+            res = list(res) + [(m, "[same object after remove+re-add of its first node and edge] " + msg) for m, msg in fn(H, spec)]
         except RecursionError:
             raise
         except Exception as e:  # noqa: BLE001
